@@ -149,6 +149,39 @@ def read_align():
     return names
 
 
+def read_mod_axis():
+    """Sequence.mod_grad_axis: which columns of a library row are multiplied (all rows / additionally for 'g' rows)"""
+    tree, _ = parse('Sequence/sequence.py')
+    fn = method(tree, 'Sequence', 'mod_grad_axis')
+    loops = [n for n in strip_doc(fn) if isinstance(n, ast.For) and unparse(n.iter) == 'selected_events']
+    if len(loops) != 1:
+        raise TranslateError('mod_grad_axis: loop over selected_events not found')
+    body = loops[0].body
+
+    def col(st):
+        if isinstance(st, ast.AugAssign) and isinstance(st.op, ast.Mult) and unparse(st.value) == 'modifier' \
+                and isinstance(st.target, ast.Subscript) and unparse(st.target.value) == 'data':
+            return const_int(st.target.slice)
+        raise TranslateError('mod_grad_axis: unexpected statement `%s`' % unparse(st)[:80])
+    want_head = ['grad_type = self.grad_library.type[grad_id]', 'data = list(self.grad_library.data[grad_id])']
+    if [unparse(b) for b in body[:2]] != want_head:
+        raise TranslateError('mod_grad_axis: loop head is %s' % [unparse(b) for b in body[:2]])
+    if unparse(body[-1]) != 'self.grad_library.update(grad_id, None, tuple(data), grad_type)':
+        raise TranslateError('mod_grad_axis: loop does not end with the library update')
+    cols_all, cols_g = [], []
+    for st in body[2:-1]:
+        if isinstance(st, ast.If):
+            if unparse(st.test) != "grad_type == 'g'" or st.orelse:
+                raise TranslateError('mod_grad_axis: unexpected test `%s`' % unparse(st.test))
+            cols_g += [col(x) for x in st.body]
+        else:
+            cols_all.append(col(st))
+    tail = [unparse(x) for x in strip_doc(fn)]
+    if tail[-1] != 'self.block_cache.clear()':
+        raise TranslateError('mod_grad_axis: the block cache is not cleared at the end')
+    return cols_all, cols_g
+
+
 def sec_gradops():
     factor, rot = read_rotate()
     ts, _ = parse('split_gradient.py')
@@ -156,6 +189,7 @@ def sec_gradops():
     t_eps, digs, arb_tol = read_split_at()
     read_align()
     eps = read_eps()
+    ma_all, ma_g = read_mod_axis()
     CONSTS['gradops'] = {'rot_factor': factor, 'rot': rot, 't_eps': t_eps, 'digits': digs, 'arb_tol': arb_tol,
                          'eps': eps}
     out = HEADER % 'rotate.py, split_gradient.py, split_gradient_at.py, align.py, __init__.py'
@@ -181,6 +215,9 @@ def sec_gradops():
     out += 'Definition align_right : nat := 2%nat.\n'
     out += '(* align.py: the re-timed copies drop the library id of the input event *)\n'
     out += 'Definition align_drops_id : bool := true.\n'
+    out += "(* Sequence.mod_grad_axis: columns of a library row multiplied for every row / additionally for 'g' rows *)\n"
+    out += 'Definition ma_cols_all : list nat := [%s]%%nat.\n' % '; '.join(str(k) for k in ma_all)
+    out += 'Definition ma_cols_g : list nat := [%s]%%nat.\n' % '; '.join(str(k) for k in ma_g)
     out += '(* pypulseq.eps *)\n'
     out += 'Definition pp_eps : Q := %s.\n' % coq_Q(eps)
     return out
